@@ -23,7 +23,13 @@ fn rt<T: serde::Serialize + serde::de::DeserializeOwned + PartialEq>(x: &T) -> V
         Err(e) => return json!({"tag": "de_failed", "msg": format!("positional: {}", e), "json": js}),
     };
     let ptoks = crate::poswire::to_tokens(&pback).unwrap_or_default();
-    json!({"tag": "ok", "eq": &back == x && &pback == x, "same_text": again == js && ptoks == toks, "json": js})
+    // ... and through a self-describing tree whose maps are sorted by key (fields arrive out of declaration order)
+    let tback: T = match serde_json::to_value(x).and_then(serde_json::from_value) {
+        Ok(b) => b,
+        Err(e) => return json!({"tag": "de_failed", "msg": format!("sorted tree: {}", e), "json": js}),
+    };
+    let tagain = serde_json::to_string(&tback).unwrap_or_default();
+    json!({"tag": "ok", "eq": &back == x && &pback == x && &tback == x, "same_text": again == js && ptoks == toks && tagain == js, "json": js})
 }
 
 pub fn run(case: &Value) -> Vec<Value> {
